@@ -76,7 +76,9 @@ std::vector<Chunk> gen_text(Rng &r, const json &opts, const TextGen &g);
 
 std::string gen_string_value(Rng &r, bool hostile, int maxlen = 12);
 // style: 0 unquoted (falls back to double quotes when not representable), 1 single-quoted, 2 double-quoted, -1 random
-std::string encode_string(Rng &r, const std::string &value, int style);
+// newlines: when false the rendering stays on one line (newline bytes of the value are written as \n escapes,
+// no line continuations); when true raw newlines and backslash-newline continuations may be used
+std::string encode_string(Rng &r, const std::string &value, int style, bool newlines = true);
 std::string gen_int_literal(Rng &r, long *value_out);
 std::string gen_float_literal(Rng &r);
 std::string gen_bool_literal(Rng &r);
